@@ -112,9 +112,20 @@ func (s *State) ExpandMacros(program ast.Node) ast.Node {
 			log.Critf("%s", estr)
 			return s.MacroErrorf("%s", estr)
 		}
-		return quote.Node
+		// The template may itself call macros: those calls are part of the program now, expand them too.
+		// (bounded: a macro whose template calls itself would never end)
+		if s.macroDepth >= maxMacroNesting {
+			return s.MacroErrorf("macro expansion nested more than %d deep", maxMacroNesting)
+		}
+		s.macroDepth++
+		res := s.ExpandMacros(quote.Node)
+		s.macroDepth--
+		return res
 	})
 }
+
+// maxMacroNesting bounds macro calls inside macro templates.
+const maxMacroNesting = 100
 
 func quoteArgs(exp *ast.CallExpression) []object.Quote {
 	args := []object.Quote{}
